@@ -57,6 +57,9 @@ def ops_full():
                     ops.append(('nset', p, v))
                 ops.append(('ndel', p, None))
         ops.append(('del', p, None))
+    # a whole group written back with an equal-valued copy of itself (cfg[g] = dict(cfg[g])): changes nothing visible
+    for p in ('imf_opts', 'extrema_opts/mag_pad_opts'):
+        ops.append(('set', p, 'SAME'))
     return ops
 
 
@@ -68,12 +71,15 @@ def ops_small():
         if '/' in p and p != 'a/b/c/d':
             ops.append(('nset', p, 3))
         ops.append(('del', p, None))
+    ops.append(('set', 'imf_opts', 'SAME'))
     return ops
 
 
 def real_apply(cfg, op):
     kind, path, v = op
-    if kind == 'set':
+    if kind == 'set' and isinstance(v, str) and v == 'SAME':
+        cfg[path] = copy.deepcopy(cfg[path])
+    elif kind == 'set':
         cfg[path] = value_of(v)
     elif kind == 'del':
         del cfg[path]
@@ -134,7 +140,9 @@ def model_apply(model, op):
         d = model
         for c in comps[:-1]:
             d = d[c]
-        if kind in ('set', 'nset'):
+        if kind == 'set' and isinstance(v, str) and v == 'SAME':
+            d[comps[-1]] = copy.deepcopy(d[comps[-1]])
+        elif kind in ('set', 'nset'):
             d[comps[-1]] = value_of(v)
         else:
             del d[comps[-1]]
@@ -261,6 +269,8 @@ def transition(root, hist):
     viols = []
     d = '%s history %s' % (variant, [fmt(o) for o in hist])
     ntrans = 1
+    if len(hist) > 1:
+        use(cfg, variant, seed, model)          # the fresh configuration is used (and its callable built) as well
     for op in hist[:-1]:
         model_apply(model, op)
         try:
@@ -340,6 +350,11 @@ def transition(root, hist):
             viols.append(('changed-by-use:raise', '%s: reading the configuration after use raised %r' % (d, e)))
     key = canon(model)
     changed = key != before
+    # a group replaced by an equal copy of itself is invisible in the canonical state, but it is a different history
+    # for anything that holds on to the old object: keep such histories apart so that the search extends them
+    nsame = sum(1 for o in hist if isinstance(o[2], str) and o[2] == 'SAME')
+    if nsame:
+        key = (key, 'same-copy', min(nsame, 2))
     if not viols:
         # persistence: both YAML routes
         want = norm(model)
